@@ -16,8 +16,8 @@ from pathlib import Path
 import numpy as np
 
 PROP = "C47"
-N = {"quick": 500, "thorough": 12000}
-WORKERS = {"quick": 3, "thorough": 16}
+N = {"quick": 300, "thorough": 12000}
+WORKERS = {"quick": 4, "thorough": 16}
 TIMEOUT = {"quick": 300, "thorough": 3000}
 CASE_TIMEOUT = 60.0
 RULE = ("kind drawn from csv2d (0-8 line fractures, endpoints on a 1/7 lattice or random "
